@@ -46,6 +46,8 @@ namespace nmtools::index
             src_2 = offset > 0 ? src_2 - offset : src_2;
             
             auto src_i = (src_1 < src_2 ? src_1 : src_2);
+            // an offset beyond the extent selects an empty diagonal (numpy), never a negative length
+            src_i = (src_i < 0 ? 0 : src_i);
 
             at(result,r_idx) = src_i;
         }
@@ -77,8 +79,9 @@ namespace nmtools::index
             at(result,i) = idx;
         }
 
-        at(result,axis1) = at(indices,meta::ct_v<-1>);
-        at(result,axis2) = at(indices,meta::ct_v<-1>) + offset;
+        // numpy: offset >= 0 selects a[i, i+offset], offset < 0 selects a[i-offset, i]
+        at(result,axis1) = at(indices,meta::ct_v<-1>) + (((nm_index_t)offset < 0) ? -(nm_index_t)offset : 0);
+        at(result,axis2) = at(indices,meta::ct_v<-1>) + (((nm_index_t)offset > 0) ?  (nm_index_t)offset : 0);
 
         return result;
     }
